@@ -210,4 +210,60 @@ example : (lexFrom LexSt.init "a=>b".toList).toOption.map (fun p => p.1.map (·.
     (lexFrom LexSt.init "a= >b".toList).toOption.map (fun p => p.1.map (·.ty)) = some [.NAME, .ASSIGN, .GT, .NAME] := by
   decide +kernel
 
+/-! ### character level: a comment at the end of a line -/
+
+/-- **a comment never changes the tokens**: if lexing `s` passes through the point where `post` remains (a point between two
+    lexer steps) and `post` is the end of the text or starts with a line feed, then inserting `#` and any comment text `cs`
+    without a line feed there gives the same tokens before and after it — kinds, values, line numbers; later offsets moved by
+    the length of the comment — and the same lexical error if any -/
+theorem comment_at_line_end_same_tokens (cs : List Char) (hcs : nl cs = 0) {post s : List Char}
+    (hp : post = [] ∨ ∃ t, post = '\n' :: t) {st1 : LexSt} {acc1 : List Token}
+    (h : LexReach post LexSt.init s [] st1 acc1) :
+    ∃ u, s = u ++ post ∧
+      lexFrom LexSt.init s = preOut acc1 (lexAll st1 post []) ∧
+      lexFrom LexSt.init (u ++ '#' :: (cs ++ post)) = preOut acc1 (shiftOut (1 + cs.length) (lexAll st1 post [])) :=
+  lex_extra_comment cs hcs hp h
+
+open Proto in
+/-- **… and never changes the parsed program** -/
+theorem comment_at_line_end_same_program (cs : List Char) (hcs : nl cs = 0) {post s : List Char}
+    (hp : post = [] ∨ ∃ t, post = '\n' :: t) {st1 : LexSt} {acc1 : List Token}
+    (h : LexReach post LexSt.init s [] st1 acc1) (tree : Op) :
+    ∃ u, s = u ++ post ∧
+      (parseText LexSt.init (u ++ '#' :: (cs ++ post)) = .ok tree ↔ parseText LexSt.init s = .ok tree) :=
+  extra_comment_same_program cs hcs hp h tree
+
+/-- non-vacuity: lexing `a\nb` passes through the point where `\nb` remains (after the NAME `a`) — a comment may be put there -/
+example : ∃ st1 acc1, LexReach "\nb".toList LexSt.init "a\nb".toList [] st1 acc1 :=
+  ⟨_, _, LexReach.tok (t := ⟨.NAME, ['a'], 0, 1⟩) (st' := ⟨1, 1, 0⟩) (by rfl) (LexReach.here _ _)⟩
+
+/-- … and concretely: `a # note` + line feed + `b` lexes to the kinds of `a` + line feed + `b` -/
+example : (lexFrom LexSt.init "a # note\nb".toList).toOption.map (fun p => p.1.map (·.ty)) =
+    (lexFrom LexSt.init "a \nb".toList).toOption.map (fun p => p.1.map (·.ty)) := by decide +kernel
+
+/-! ### character level: a line break inside brackets -/
+
+open Proto in
+/-- **a line break between tokens inside brackets never changes the parsed program** — `\n` as well as `\r\n`: if lexing `s`
+    passes through the point where `post` remains while the lexer is inside brackets (`st1.depth ≠ 0`), the text with a line
+    break inserted there parses to a tree iff `s` does, and to the same tree (the later tokens keep kind and value; their
+    offsets and LINE numbers move — `lex_extra_linefeed`, `lex_extra_crlf` — and the parser reads neither) -/
+theorem line_break_in_brackets_same_program {post s : List Char} {st1 : LexSt} {acc1 : List Token}
+    (h : LexReach post LexSt.init s [] st1 acc1) (hd : st1.depth ≠ 0) (tree : Op) :
+    ∃ u, s = u ++ post ∧
+      (parseText LexSt.init (u ++ '\n' :: post) = .ok tree ↔ parseText LexSt.init s = .ok tree) ∧
+      (parseText LexSt.init (u ++ '\r' :: '\n' :: post) = .ok tree ↔ parseText LexSt.init s = .ok tree) :=
+  extra_linebreak_same_program h hd tree
+
+/-- non-vacuity: lexing `f(a,b)` passes through the point where `b)` remains, inside the bracket (depth 1) -/
+example : ∃ st1 acc1, LexReach "b)".toList LexSt.init "f(a,b)".toList [] st1 acc1 ∧ st1.depth ≠ 0 :=
+  ⟨⟨4, 1, 1⟩, _, LexReach.tok (t := ⟨.NAME, ['f'], 0, 1⟩) (st' := ⟨1, 1, 0⟩) (by rfl)
+    (LexReach.tok (t := ⟨.LPAREN, ['('], 1, 1⟩) (st' := ⟨2, 1, 1⟩) (by rfl)
+      (LexReach.tok (t := ⟨.NAME, ['a'], 2, 1⟩) (st' := ⟨3, 1, 1⟩) (by rfl)
+        (LexReach.tok (t := ⟨.COMMA, [','], 3, 1⟩) (st' := ⟨4, 1, 1⟩) (by rfl) (LexReach.here _ _)))), by decide⟩
+
+/-- … while at depth 0 a line break is a statement separator: `a\nb` and `ab` differ -/
+example : (lexFrom LexSt.init "a\nb".toList).toOption.map (fun p => p.1.map (·.ty)) = some [.NAME, .NEWLINE, .NAME] := by
+  decide +kernel
+
 end SqProps.C15
